@@ -189,6 +189,14 @@ class ValProp(Prop):
             out.append(show(['val', t, v]))
         out += chunk_exact_cases(g, max(24, self.n(tier) // 12))
         out += same_content_cases(g, max(6, self.n(tier) // 40))
+        # families of types that print alike, a (full) value of each, the tightest member first
+        for fam in alike_families(g, max(3, self.n(tier) // 60)):
+            key = lambda q: q[1][1] if q[1][0] != 'cont' else q[1][2][1]
+            for t in sorted(fam, key=key):
+                v = g.max_val(t) or g.val(t, 4)
+                out.append(show(['val', t, v]))
+                if g.rng.random() < 0.5:
+                    out.append(show(['val', ['cont', 'u8', t], ['s', '1', v]]))
         return out
 
 
@@ -213,6 +221,13 @@ def chunk_exact_cases(g, n):
             v = vals if t[1] == 'u8' else ['s'] + [r.choice('01') for _ in range(cnt)]
             out.append(show(['val', t, v]))
             out.append(show(['val', ['cont', 'u16', t, 'u8'], ['s', '7', v, '9']]))
+    # always: bit fields whose length is 1..7 bits short of a chunk boundary (the last BYTE of the chunk is partly used)
+    for nb in (r.choice([249, 250, 251]), r.choice([252, 253, 254]), 255, r.choice([505, 507, 509, 510]), 511):
+        bits = 'b' + ''.join(r.choice('01') for _ in range(nb - 1)) + '1'
+        out.append(show(['val', ['bv', nb], bits]))
+        out.append(show(['val', ['bl', nb + r.choice([0, 1, 300])], bits]))
+        if r.random() < 0.5:
+            out.append(show(['val', ['cont', 'u8', ['bv', nb]], ['s', '2', bits]]))
     for _ in range(n):
         nbytes = 32 * r.choice([1, 1, 2, 3, 4])
         k = r.choice(['Bl', 'Bl', 'u8', 'u16', 'u64', 'u128', 'bool', 'bl'])
@@ -863,6 +878,28 @@ class C14(HistProp):
             if lim == 1:
                 ops = [['app', one()], ['pop'], ['app', one()], ['app', one()], ['pop'], ['pop']]
             out.append(show(['hist', t, v] + ops))
+        # unions: change to ANOTHER valid selector with an invalid value (out of range, over the limit, None for a typed
+        # option), alone and as a field: the union must stay on its old selector and value
+        for _ in range(max(8, self.n(tier) // 10)):
+            opts = [r.choice(['u8', 'u16', ['list', 'u8', 2], ['Bv', 3], ['vec', 'u8', 2]]) for _ in range(r.choice([2, 3]))]
+            u = ['union'] + (['none'] if r.random() < 0.4 else []) + opts
+            cur = r.randrange(len(u) - 1)
+            v0 = ['u', cur, 'none' if u[1 + cur] == 'none' else g.val(u[1 + cur], 3)]
+            ops = []
+            for sel in range(len(u) - 1):
+                o = u[1 + sel]
+                if sel == cur or o == 'none':
+                    continue
+                bad = g.invalid_val(o) if r.random() < 0.7 else 'none'
+                if bad is None:
+                    bad = 'none'
+                ops.append(['chg', sel, bad])
+            if not ops:
+                continue
+            if r.random() < 0.5:
+                out.append(show(['hist', u, v0] + ops))
+            else:
+                out.append(show(['store', ['cont', 'u8', u], ['s', '1', v0], ['child', 0, 1]] + [['bad', 1, o] for o in ops]))
         # invalid operations through held child views: every enclosing view must stay as it was
         for _ in range(self.n(tier) // 3):
             t = nested_ty(g, r.choice([1, 2, 2, 3]))
@@ -1410,6 +1447,14 @@ class C12(Prop):
             wrapt = g.rng.choice([bvt, ['cont', 'u8', bvt], ['vec', bvt, 2], ['union', bvt, 'u8']])
             out.append(show(['type', wrapt]))
             out.append(show(['type', bvt]))
+        # element types with EQUAL default roots but different structure (a list's empty contents are ONE summary node, a
+        # container's fixed-size field is materialised chunks), used one after the other in vectors of the same length
+        for d_ in (1, 2, 3):
+            n_ = 4 << d_
+            lst, rec = ['list', 'u64', n_], ['cont', ['vec', 'u64', n_], 'u64']
+            ln = g.rng.choice([3, 5, 6, 7, 12])
+            for t in (['vec', lst, ln], ['vec', rec, ln], ['vec', lst, ln + 1], ['vec', rec, ln + 1]):
+                out.append(show(['type', t]))
         # default vectors of composite elements (whose default root is not the zero chunk) at every small length, in
         # particular the even lengths that are not powers of two
         for n_ in (3, 5, 6, 7, 9, 10, 11, 12, 13, 14, 15, 17, 18, 20, 24):
@@ -2588,6 +2633,13 @@ class C19(HistProp):
         out = HistProp.generate(self, g, tier)
         for _ in range(self.n(tier) // 3):
             t, v = self.tv(g, tier)
+            out.append(show(['val', t, v]))
+        # unions with the None option selected (alone, as a field, as an element): second root / copy / re-created view cost nothing
+        for _ in range(max(6, self.n(tier) // 25)):
+            u = ['union', 'none', g.rng.choice(['u8', ['list', 'u16', 5], ['cont', 'u8', 'u16']])]
+            uv = ['u', 0, 'none']
+            t, v = g.rng.choice([(u, uv), (['cont', 'u8', u], ['s', '1', uv]), (['list', u, 3], ['s', uv, uv]), (['vec', u, 2], ['s', uv, uv])])
+            out.append(show(['val', u, uv]))
             out.append(show(['val', t, v]))
         # mutations through held child views: the cost is the path from the root view down
         for _ in range(self.n(tier) // 2):
